@@ -1,3 +1,5 @@
+#[cfg(feature = "verif")]
+use crate::verif::std_shim as std;
 use std::any::TypeId;
 use std::collections::hash_map::Entry;
 use std::collections::{HashMap, HashSet};
@@ -837,5 +839,41 @@ num_cores = 1
             rx2.recv().unwrap().into_iter().collect::<Vec<_>>(),
             vec![StreamElement::Item(666u64)]
         );
+    }
+}
+
+#[cfg(feature = "verif")]
+impl NetworkTopology {
+    /// Canonical dump of the links and of the demultiplexer addresses.
+    #[allow(clippy::type_complexity)]
+    pub(crate) fn verif_dump(
+        &self,
+    ) -> (
+        Vec<(crate::verif::observe::C3, crate::verif::observe::C3, bool)>,
+        Vec<((u64, u64, u64), String, u16)>,
+    ) {
+        use crate::verif::observe::c3;
+        let mut links: Vec<_> = self
+            .next
+            .iter()
+            .flat_map(|((from, _), to)| {
+                to.iter()
+                    .map(move |(to, fragile)| (c3(*from), c3(*to), *fragile))
+            })
+            .collect();
+        links.sort();
+        let mut addresses: Vec<_> = self
+            .demultiplexer_addresses
+            .iter()
+            .map(|(d, (a, p))| {
+                (
+                    (d.coord.block_id, d.coord.host_id, d.prev_block_id),
+                    a.clone(),
+                    *p,
+                )
+            })
+            .collect();
+        addresses.sort();
+        (links, addresses)
     }
 }
